@@ -14,10 +14,12 @@ import core
 from prompt_toolkit.application import Application
 from prompt_toolkit.application.current import set_app
 from prompt_toolkit.input import DummyInput
-from prompt_toolkit.layout.containers import (HorizontalAlign, HSplit, VerticalAlign, VSplit,
-                                              Window)
+from prompt_toolkit.layout.containers import (ConditionalContainer, DynamicContainer, HorizontalAlign, HSplit,
+                                              VerticalAlign, VSplit, Window)
+from prompt_toolkit.layout.controls import FormattedTextControl
+from prompt_toolkit.filters import Condition
 from prompt_toolkit.layout.dimension import (Dimension, max_layout_dimensions,
-                                             sum_layout_dimensions)
+                                             sum_layout_dimensions, to_dimension)
 from prompt_toolkit.layout.mouse_handlers import MouseHandlers
 from prompt_toolkit.layout.screen import Screen, WritePosition
 from prompt_toolkit.output import DummyOutput
@@ -25,27 +27,51 @@ from prompt_toolkit.utils import take_using_weights
 
 ID = "C12"
 DRIVER = "drv_c12"
-PROPS = ["Ptk.Props.C12", "Ptk.Props.C12Session", "Ptk.Props.C12Tree", "Ptk.Props.C12Orig", "Ptk.Props.C12Gen", "Ptk.Props.C12Loop", "Ptk.Props.C12Grow"]
-LEVEL_TEXT = ("Lean 4 theorems over an executable model of Dimension, take_using_weights (explicit stream state "
-              "machine, integer cross-multiplication), _child_generators/_grow_sizes and the two divide functions: "
-              "termination for every list of valid dimensions incl. weight 0 (from a fairness theorem for the "
-              "stream), too-small iff the minimums do not fit, min <= size <= max, sum <= available, preferred before "
-              "extra, space used up to the maxima, adjacent disjoint regions; for nested HSplit/VSplit/Window trees: "
-              "every drawn window inside the root region and no two overlapping; for the pre-fix code: non-termination "
-              "on the F4 witness and equality with the fixed code on positive weights; tied to /repo on every run by a differential correspondence (exhaustive small scope + "
-              "random) on the real HSplit/VSplit and by the property oracle under a CPU-time watchdog")
+PROPS = ["Ptk.Props.C12", "Ptk.Props.C12Fuel", "Ptk.Props.C12Slow", "Ptk.Props.C12Session", "Ptk.Props.C12Tree", "Ptk.Props.C12TreeFuel",
+         "Ptk.Props.C12Orig", "Ptk.Props.C12OrigFuel",
+         "Ptk.Props.C12Gen", "Ptk.Props.C12Loop", "Ptk.Props.C12Grow", "Ptk.Props.C12Bound", "Ptk.Props.C12Steps",
+         "Ptk.Props.C12Dim", "Ptk.Props.C12Align", "Ptk.Props.C12Mouse"]
+LEVEL_TEXT = ("Lean 4 theorems over an executable model of Dimension / to_dimension / sum_ and max_layout_dimensions / "
+              "Window._merge_dimensions, take_using_weights (explicit stream state machine, integer cross-multiplication), "
+              "_child_generators/_grow_sizes and the two divide functions: termination WITH AN EXPLICIT BOUND for every "
+              "list of valid dimensions incl. weight 0 - at most n*(maxW+1) loop iterations per cell handed out, hence "
+              "(available - sum min)*n*(maxW+1) in total, each next() within 3n+3 generator steps (the driver runs the "
+              "model once with that fuel and its iteration counter equals the number of next() calls counted on the "
+              "real generator) - and a proof that the factor maxW is attained (weights [1, M] need exactly M+2 "
+              "iterations for 2 cells: effective hang for huge weights, known finding); too-small iff the minimums do "
+              "not fit (also in terms of the user's children: minimums plus (n-1) paddings, every alignment), "
+              "min <= size <= max, sum <= available, preferred before extra, space used up to the maxima, adjacent "
+              "disjoint regions in the listed order with exactly one padding between neighbours and fillers only at "
+              "the ends; for nested HSplit/VSplit/Window/ConditionalContainer trees with explicit width=/height= on "
+              "splits, content-derived preferred sizes and dont_extend_width/height: every drawn window inside the "
+              "root region, no two overlapping (hence every cell has at most one mouse handler and none lies outside "
+              "the region), the 'window too small' replacement gets exactly the split's region, and rendering never "
+              "runs out of the fuel computed from the tree; one split object reused (children may be "
+              "ConditionalContainers that come and go): answers depend on the current requirements only, never out of "
+              "fuel; for the pre-fix code: non-termination on the F4 witness, equality with the fixed code on positive "
+              "weights and the same explicit fuel; tied to /repo "
+              "on every run by a differential correspondence (exhaustive small scope + random) on the real "
+              "HSplit/VSplit/Window objects and by the property oracle under a CPU-time watchdog")
 LEVEL_NOTE = ("trusted: Lean kernel, axioms propext/Classical.choice/Quot.sound only; the hand-written model "
               "(validated by the correspondence, not proved equal to the Python); float division == exact rational "
-              "comparison in take_using_weights for operands < 2^26")
+              "comparison in take_using_weights for operands < 2^26; the harness replaces the module global "
+              "containers.take_using_weights by a counting wrapper in its own process to count loop iterations")
 RULE = ("exhaustive: every list of <= N children over all valid (min<=preferred<=max, max possibly unbounded, weight "
         "incl. 0) combinations of a small value set x every available size 0..A x HSplit/VSplit (justify, padding 0; "
-        "lists of 3+ children alternate between the two), plus for each list one seeded alignment/padding variant; then seeded random lists of up to 8 children with "
-        "unspecified fields, larger sizes/weights, all alignments, int and Dimension paddings, is_done, and "
-        "write_to_screen positions; plus direct cases for Dimension(), sum/max_layout_dimensions and "
-        "take_using_weights; random trees of nested HSplit/VSplit/Window (depth <= 3) compared window by window in "
-        "drawing order; sessions on ONE HSplit/VSplit object (children with callable dimensions) divided/rendered "
-        "2-4 times while requirements, children list, available size (mostly unchanged) and align change; "
-        "a case is non-trivial when at least one division has to grow a child")
+        "lists of 3+ children alternate between the two), plus for each list one seeded alignment/padding variant; "
+        "every division also compares the NUMBER OF LOOP ITERATIONS (next() calls) and the proved bound; then seeded "
+        "random lists of up to 8 children with unspecified fields, larger sizes/weights, all alignments, int and "
+        "Dimension paddings, is_done, and write_to_screen positions; direct cases for Dimension(), to_dimension "
+        "(None/int/Dimension/callables), Window._merge_dimensions (content preference x dont_extend), "
+        "sum/max_layout_dimensions and take_using_weights; random trees of nested HSplit/VSplit/Window (depth <= 3), "
+        "half of them with FormattedTextControl windows (content size, dont_extend_width/height), "
+        "ConditionalContainer (filter on/off) and DynamicContainer children and explicit width=/height= on splits, compared window by "
+        "window in drawing order, every written screen cell and every registered mouse handler checked against the "
+        "windows' regions, explicit min..max of windows / sized splits / int paddings checked against the drawn sizes; "
+        "sessions on ONE HSplit/VSplit object (children with callable dimensions, a third of them behind "
+        "ConditionalContainers whose filters toggle) divided/rendered 2-4 times while requirements, children list, "
+        "available size (mostly unchanged) and align change; 9 huge-weight cases (10^6..10^12) run on the real code "
+        "under an iteration budget; a case is non-trivial when at least one division has to grow a child")
 EXHAUSTIVE = True
 EXHAUSTIVE_SCOPE = {
     "quick": "children<=2 over min in {0,1}, preferred<=2, max in {..2,unbounded}, weight in {0,1,2}; children=3 over "
@@ -53,23 +79,87 @@ EXHAUSTIVE_SCOPE = {
     "thorough": "children<=2 over min in {0,1,2}, preferred<=3, max in {..3,unbounded}, weight in {0,1,2,3}; children=3 "
                 "over the quick 2-children alphabet; children=4 over min in {0,1}, preferred<=1, max in {..1,unbounded}, "
                 "weight in {0,1}; avail 0..10; HSplit and VSplit"}
-TRUSTED = ["harness/c12.py compares the return value of _divide_heights/_divide_widths (watchdog: a call that burns "
-           "more than 0.5 s CPU, confirmed once with 2 s, is 'err:Hang') and "
-           "Screen.visible_windows_to_write_positions after write_to_screen",
-           "Ptk/Model/C12.lean, C12Tree.lean are hand translations of dimension.py, take_using_weights, the "
-           "divide/grow code and the preferred_width/preferred_height/write_to_screen of the two split classes "
-           "(correspondence-checked); Ptk/Model/C12Orig.lean is the pre-fix loop (correspondence-checked on "
+TRUSTED = ["harness/c12.py compares the return value of _divide_heights/_divide_widths, the number of items the real "
+           "take_using_weights generators handed out during the call (counting wrapper installed as "
+           "containers.take_using_weights), (watchdog: a call that burns more than 0.5 s CPU, confirmed once with 2 s, "
+           "is 'err:Hang') and Screen.visible_windows_to_write_positions / Screen.data_buffer after write_to_screen",
+           "Ptk/Model/C12.lean, C12Steps.lean, C12Tree.lean, C12Session.lean are hand translations of dimension.py, "
+           "take_using_weights, the divide/grow code, Window._merge_dimensions and the "
+           "preferred_width/preferred_height/write_to_screen of HSplit, VSplit, ConditionalContainer and (region only) "
+           "Window (correspondence-checked); Ptk/Model/C12Orig.lean is the pre-fix loop (correspondence-checked on "
            "positive weights, where it must agree with the fixed code)",
-           "Drivers/C12.lean doubles the model's fuel until it answers (justified by divide_terminates and "
-           "divide_fuel_independent)"]
-ASSUMPTIONS = ["children are Windows with a DummyControl whose height/width Dimension is given explicitly "
-               "(content-derived preferred sizes are an input of the model: any valid Dimension)",
+           "Drivers/C12.lean runs every model function ONCE with the proved fuel (fuelBound / treeFuel; theorems "
+           "divide_terminates_bound, runSessionB_no_hang, render_treeFuel, divideOrig_terminates_bound); there is no "
+           "fuel search left in the driver"]
+ASSUMPTIONS = ["content-derived preferred sizes are an input of the model (what the control reports: any natural number "
+               "or None, independent of the offered width - true for FormattedTextControl without line wrapping and "
+               "for DummyControl; windows have no margins)",
                "Dimension objects are not mutated after construction (min <= preferred <= max)",
-               "float division in take_using_weights is exact for the operand range (< 2^26)"]
-PARTIAL_SCOPE = ["the drawing of each window inside its region (Window.write_to_screen) is not modelled, only the "
-                 "region handed to it; windows with dont_extend_width/height, explicit width=/height= on a split, "
-                 "z_index and content-derived preferred sizes (they are an input: any valid Dimension) are not modelled",
-                 "termination is proved as existence of enough fuel (no explicit bound); the driver doubles its fuel"]
+               "float division in take_using_weights is exact for the operand range (< 2^26)",
+               "an unspecified minimum is 0 (regenerated constant, side condition gen_defaultMin re-decided on every run)"]
+PARTIAL_SCOPE = ["inside a window only the region is modelled (the write position after the dont_extend reduction); "
+                 "_copy_body / margins / _fill_bg are checked by the oracle only (no cell outside the root region, window "
+                 "text inside the window's write position)",
+                 "z_index (postponed drawing), FloatContainer (floats are not children of a split: outside the "
+                 "statement), ScrollablePane, parent_style and content whose preferred height depends on the width "
+                 "(line wrapping) are not modelled; mouse handlers: only their regions (= the windows' write positions)",
+                 "the iteration bound n*(maxW+1) per cell is within the factor n of the true worst case (weights [1, M]: "
+                 "M+2 iterations for 2 cells vs bound 4(M+1))",
+                 "effective hang for huge weight ratios is a known finding, not repaired (a results-preserving repair "
+                 "needs a weighted stream that skips saturated children)"]
+ANCHORS = ["src/prompt_toolkit/layout/containers.py", "src/prompt_toolkit/layout/dimension.py",
+           "src/prompt_toolkit/utils.py"]
+MODELLED = {
+    "src/prompt_toolkit/layout/containers.py": [
+        "_child_generators", "_grow_sizes",
+        "HSplit.preferred_width", "HSplit.preferred_height", "HSplit._all_children", "HSplit._all_children.get",
+        "HSplit.write_to_screen", "HSplit._divide_heights",
+        "VSplit.preferred_width", "VSplit.preferred_height", "VSplit._all_children", "VSplit._all_children.get",
+        "VSplit._divide_widths", "VSplit.write_to_screen",
+        "Window._merge_dimensions", "Window.write_to_screen",
+        "ConditionalContainer.preferred_width", "ConditionalContainer.preferred_height",
+        "ConditionalContainer.write_to_screen",
+        "DynamicContainer._get_container", "DynamicContainer.preferred_width", "DynamicContainer.preferred_height",
+        "DynamicContainer.write_to_screen"],
+    "src/prompt_toolkit/layout/dimension.py": [
+        "Dimension.__init__", "Dimension.exact", "Dimension.zero", "Dimension.is_zero",
+        "sum_layout_dimensions", "max_layout_dimensions", "to_dimension"],
+    "src/prompt_toolkit/utils.py": ["take_using_weights"],
+}
+
+# ------------------------------------------------------------------ counting the loop iterations
+# `_child_generators` builds its generators with the module global `take_using_weights` of
+# containers.py; the harness replaces that global (in this process only, /repo is untouched) by a
+# wrapper that counts every item the real generator hands out = every `next(generator)` of
+# `_grow_sizes` = every iteration of `while sum(sizes) < group_stop`.
+import prompt_toolkit.layout.containers as _containers
+
+_REAL_TAKE = take_using_weights
+STEPS = [0]
+STEP_BUDGET = [None]
+
+
+class StepBudget(Exception):
+    """more `next(generator)` calls than the budget of this call allows"""
+
+
+def _counting_take(items, weights):
+    g = _REAL_TAKE(items, weights)
+
+    def gen():
+        for x in g:
+            STEPS[0] += 1
+            if STEP_BUDGET[0] is not None and STEPS[0] > STEP_BUDGET[0]:
+                raise StepBudget()
+            yield x
+    return gen()
+
+
+_containers.take_using_weights = _counting_take
+
+SLOW_BUDGET = 100_000   # loop iterations granted to a 'slow' case (about 0.2 s of CPU)
+SLOW_SIGNATURE = ("_grow_sizes | loop iterations proportional to the largest weight: effective hang for "
+                  "huge weights")
 
 TIME_LIMIT = 0.5     # CPU seconds (ITIMER_VIRTUAL: a busy loop burns CPU, a descheduled process does not)
 CONFIRM_LIMIT = 2.0  # a first time-out is confirmed once with a longer limit before it counts as a hang
@@ -152,41 +242,151 @@ def pad_spec(pad):
 
 
 # ------------------------------------------------------------------ nested containers
-def rand_tree(rng, depth, ids, root=True):
-    """['W', id, wspec, hspec] | ['H'|'V', align, pad, [children]]; the root is always a split"""
+NOSPEC = [None, None, None, None]
+ZERO_SPEC = [0, 0, None, 0]      # Dimension.zero()
+
+
+def rand_tree(rng, depth, ids, root=True, ext=False):
+    """['W', id, wspec, hspec] | ['H'|'V', align, pad, [children]]; with ext also ['Y', child]
+    (DynamicContainer),
+    ['X', id, wspec, hspec, cw, ch, dew, deh] (window with content / dont_extend),
+    ['C', on, child] (ConditionalContainer), ['S', wspec|None, hspec|None, split] (explicit
+    width=/height= on a split); the root is always a split"""
     if depth == 0 or (not root and rng.randrange(3) == 0):
         ids[0] += 1
-        return ["W", ids[0], rand_spec(rng), rand_spec(rng)]
-    return [rng.choice("HV"), rng.randrange(4), rand_pad(rng),
-            [rand_tree(rng, depth - 1, ids, False) for _ in range(rng.choice([0, 1, 2, 2, 3]))]]
+        if ext and rng.randrange(3):
+            if rng.randrange(4):
+                cw, ch = rng.choice([0, 1, 2, 3, 5, 9]), rng.choice([1, 1, 2, 3, 6])
+            else:
+                cw = ch = None
+            leaf = ["X", ids[0], rng.choice([NOSPEC, rand_spec(rng)]), rng.choice([NOSPEC, rand_spec(rng)]),
+                    cw, ch, rng.randrange(2), rng.randrange(2)]
+        else:
+            leaf = ["W", ids[0], rand_spec(rng), rand_spec(rng)]
+        if ext and rng.randrange(5) == 0:
+            return ["C", rng.randrange(2), leaf]
+        if ext and rng.randrange(8) == 0:
+            return ["Y", leaf]
+        return leaf
+    node = [rng.choice("HV"), rng.randrange(4), rand_pad(rng),
+            [rand_tree(rng, depth - 1, ids, False, ext) for _ in range(rng.choice([0, 1, 2, 2, 3]))]]
+    if ext and rng.randrange(4) == 0:
+        node = ["S", rng.choice([None, rand_spec(rng)]), rng.choice([None, rand_spec(rng)]), node]
+    if ext and not root and rng.randrange(6) == 0:
+        node = ["C", rng.randrange(2), node]
+    elif ext and not root and rng.randrange(8) == 0:
+        node = ["Y", node]
+    return node
+
+
+def opt_tok(v):
+    return "N" if v is None else str(v)
 
 
 def tree_tokens(t):
     if t[0] == "W":
         return f"W {t[1]} {spec_tokens(t[2])} {spec_tokens(t[3])}"
+    if t[0] == "X":
+        return (f"X {t[1]} {spec_tokens(t[2])} {spec_tokens(t[3])} {opt_tok(t[4])} {opt_tok(t[5])} "
+                f"{t[6]} {t[7]}")
+    if t[0] == "C":
+        return f"C {t[1]} {tree_tokens(t[2])}"
+    if t[0] == "Y":
+        return f"Y {tree_tokens(t[1])}"
+    if t[0] == "S":
+        return (f"S {int(t[1] is not None)} {spec_tokens(t[1] or NOSPEC)} {int(t[2] is not None)} "
+                f"{spec_tokens(t[2] or NOSPEC)} {tree_tokens(t[3])}")
     return (f"{t[0]} {t[1]} {spec_tokens(pad_spec(t[2]))} {len(t[3])}"
             + "".join(" " + tree_tokens(c) for c in t[3]))
 
 
 def tree_size(t):
-    return 1 if t[0] == "W" else 1 + sum(tree_size(c) for c in t[3])
+    if t[0] in "WX":
+        return 1
+    if t[0] == "C":
+        return 1 + tree_size(t[2])
+    if t[0] == "Y":
+        return 1 + tree_size(t[1])
+    if t[0] == "S":
+        return tree_size(t[3])
+    return 1 + sum(tree_size(c) for c in t[3])
 
 
-def build_tree(t, tags):
+def tree_ext(t):
+    """does the tree use a window with content / dont_extend, a conditional container or a sized split"""
+    if t[0] in "XCSY":
+        return True
+    return t[0] in "HV" and any(tree_ext(c) for c in t[3])
+
+
+def win_letter(wid):
+    # (capitals without 'W': the text of the 'Window too small...' replacement must not be mistaken
+    #  for the text of a user window)
+    return "ABCDEFGHIJKLMNOPQRSTUVXYZ"[wid % 25]
+
+
+# write positions handed to the real splits during the last real_tree() (harness-side wrapper
+# around HSplit/VSplit.write_to_screen, this process only) and the tree node of every real object
+SPLIT_REGIONS = {}
+NODE_OF = {}
+
+
+def _recording(cls):
+    orig = cls.write_to_screen
+
+    def write_to_screen(self, screen, mouse_handlers, write_position, parent_style, erase_bg, z_index):
+        SPLIT_REGIONS[self] = write_position
+        return orig(self, screen, mouse_handlers, write_position, parent_style, erase_bg, z_index)
+    cls.write_to_screen = write_to_screen
+
+
+_recording(HSplit)
+_recording(VSplit)
+
+
+def build_tree(t, tags, size=(None, None)):
+    r = _build_tree(t, tags, size)
+    NODE_OF[r] = t
+    return r
+
+
+def _build_tree(t, tags, size=(None, None)):
     if t[0] == "W":
         w = Window(width=mkD(t[2]), height=mkD(t[3]))
         tags[w] = f"u{t[1]}"
         return w
+    if t[0] == "X":
+        _, wid, ws, hs, cw, ch, dew, deh = t
+        content = None
+        if cw is not None:
+            content = FormattedTextControl("\n".join([win_letter(wid) * cw] * ch))
+        w = Window(content, width=None if ws == NOSPEC else mkD(ws), height=None if hs == NOSPEC else mkD(hs),
+                   dont_extend_width=bool(dew), dont_extend_height=bool(deh))
+        tags[w] = f"u{wid}"
+        return w
+    if t[0] == "C":
+        return ConditionalContainer(build_tree(t[2], tags), filter=bool(t[1]))
+    if t[0] == "Y":
+        inner = build_tree(t[1], tags)
+        return DynamicContainer(lambda: inner)
+    if t[0] == "S":
+        return build_tree(t[3], tags, (None if t[1] is None else mkD(t[1]), None if t[2] is None else mkD(t[2])))
     kids = [build_tree(c, tags) for c in t[3]]
     pad = t[2] if isinstance(t[2], int) else mkD(t[2])
     if t[0] == "H":
-        return HSplit(kids, padding=pad, align=VALIGN[t[1]])
-    return VSplit(kids, padding=pad, align=HALIGN[t[1]])
+        return HSplit(kids, padding=pad, align=VALIGN[t[1]], width=size[0], height=size[1])
+    return VSplit(kids, padding=pad, align=HALIGN[t[1]], width=size[0], height=size[1])
 
 
 def tag_aux(split, tags):
     """tags for the windows a split creates itself: p(adding), f(iller), r(emaining), s(too small)"""
     if isinstance(split, Window):
+        return
+    if isinstance(split, ConditionalContainer):
+        tag_aux(split.content, tags)
+        return
+    if isinstance(split, DynamicContainer):
+        tag_aux(split.get_container(), tags)
         return
     kids = split.children
     allc = split._all_children
@@ -206,12 +406,17 @@ def tag_aux(split, tags):
 def real_tree(case):
     """-> (status, [(tag, x, y, w, h)] in drawing order, root)"""
     tags = {}
+    SPLIT_REGIONS.clear()
+    NODE_OF.clear()
     root = build_tree(case["tree"], tags)
     tag_aux(root, tags)
     screen = Screen()
     app().render_counter += 1
     x, y, w, h = case["wp"]
-    r = guarded(lambda: root.write_to_screen(screen, MouseHandlers(), WritePosition(x, y, w, h), "", False, None))
+    mouse = MouseHandlers()
+    r = guarded(lambda: root.write_to_screen(screen, mouse, WritePosition(x, y, w, h), "", False, None))
+    real_tree.screen = screen
+    real_tree.mouse = mouse
     if r[0] != "ok":
         return r, None, root
     vis = screen.visible_windows_to_write_positions
@@ -239,6 +444,8 @@ class Session:
         self.dir = case["dir"]
         self.cur = {}
         self.wins = {}
+        self.cond = bool(case.get("cond"))    # children wrapped in ConditionalContainer(filter=...)
+        self.hidden = set()
         first = case["calls"][0]
         pad = first["pad"]
         padding = pad if isinstance(pad, int) else mkD(pad)
@@ -250,10 +457,14 @@ class Session:
     def window(self, wid):
         if wid not in self.wins:
             get = lambda wid=wid: self.cur[wid]  # noqa: E731
-            self.wins[wid] = Window(height=get) if self.dir == "h" else Window(width=get)
+            w = Window(height=get) if self.dir == "h" else Window(width=get)
+            if self.cond:
+                w = ConditionalContainer(w, filter=Condition(lambda wid=wid: wid not in self.hidden))
+            self.wins[wid] = w
         return self.wins[wid]
 
     def prepare(self, call):
+        self.hidden = set(call.get("hidden") or [])
         for wid, spec in call["children"]:
             self.cur[wid] = mkD(spec)
         self.split.children = [self.window(wid) for wid, _ in call["children"]]
@@ -262,6 +473,7 @@ class Session:
 
 
 def real_divide(split, case, avail):
+    STEPS[0] = 0
     if case["dir"] == "h":
         return split._divide_heights(WritePosition(0, 0, 7, avail))
     return split._divide_widths(avail)
@@ -294,6 +506,12 @@ def req_tokens(case):
             + "".join(" " + spec_tokens(s) for s in case["children"]))
 
 
+def merge_variants(case, i):
+    """(content preference, dont_extend) pairs tried for the i-th spec of a 'dim' case"""
+    k = sum(v or 0 for s in case["specs"] for v in s) + i
+    return [(None, 1), (0, 0), (0, 1), (k % 5, 1), (k % 7 + 1, 0), (k % 11 + 2, 1)]
+
+
 def all_positive(case):
     """no child and no padding window has weight 0 (None = default weight 1)"""
     return all(s[2] != 0 for s in case["children"] + [pad_spec(case["pad"])])
@@ -303,10 +521,20 @@ def model_lines(case):
     k = case["kind"]
     if k == "dim":
         out = []
-        for s in case["specs"]:
+        for i, s in enumerate(case["specs"]):
             out.append("dim " + spec_tokens(s))
             out.append("win " + spec_tokens(s))
             out.append("win " + spec_tokens(s))
+            for c, de in merge_variants(case, i):
+                out.append(f"mrg {spec_tokens(s)} {opt_tok(c)} {de}")
+            out.append("todim D " + spec_tokens(s))
+            out.append("todim F F D " + spec_tokens(s))
+            for v in s:
+                if v is not None:
+                    out.append(f"todim I {v}")
+                    out.append(f"todim F I {v}")
+        out.append("todim N")
+        out.append("todim F N")
         body = f"{len(case['specs'])}" + "".join(" " + spec_tokens(s) for s in case["specs"])
         out.append("sum " + body)
         out.append("max " + body)
@@ -317,11 +545,18 @@ def model_lines(case):
         x, y, w, h = case["wp"]
         tt = tree_tokens(case["tree"])
         return [f"tree {x} {y} {w} {h} {tt}", f"tpw {w} {tt}", f"tph {w} {h} {tt}"]
+    if k == "slow":
+        # huge weights: the model is not run (it would need as many iterations as the real code,
+        # Ptk.Props.C12Slow); only the proved bound is printed
+        return [f"bnd {case['dir']} {case['align']} {case['done']} {case['avail']} {req_tokens(case)}"]
     if k == "reuse":
         toks = [f"sess {case['dir']} {len(case['calls'])}"]
         for c in case["calls"]:
+            # a hidden ConditionalContainer child reports Dimension.zero()
+            hid = set(c.get("hidden") or [])
             toks.append(f"{c['align']} {c['done']} {c['avail']} {spec_tokens(pad_spec(c['pad']))} {len(c['children'])}"
-                        + "".join(f" {wid} {spec_tokens(sp)}" for wid, sp in c["children"]))
+                        + "".join(f" {wid} {spec_tokens(ZERO_SPEC if wid in hid else sp)}"
+                                  for wid, sp in c["children"]))
         return [" ".join(toks)]
     out = []
     for a in case["avails"]:
@@ -356,6 +591,26 @@ def enc_res(r):
     return "ok " + " ".join([str(len(v))] + [str(s) for s in v])
 
 
+def gap_bound(dims):
+    """n * (maxW + 1): the proved bound on the loop iterations per cell handed out (restated here
+    over the REAL dimensions; Ptk.Props.C12Fuel.divideC_steps_le)"""
+    return len(dims) * (max([1] + [d.weight for d in dims]) + 1)
+
+
+def step_bound(dims, avail):
+    return max(avail - sum(d.min for d in dims), 0) * gap_bound(dims)
+
+
+def enc_div(r, split, case, avail):
+    """result of one real divide call + the number of `next` calls it made + the bound formula"""
+    out = enc_res(r)
+    if r[0] == "ok" and r[1] is not None:
+        steps = STEPS[0]
+        dims = real_dims(split, case, avail) if not (case["dir"] == "h" and not split.children) else []
+        out += f" it={steps} bound={step_bound(dims, avail)}"
+    return out
+
+
 def draw(split, case):
     """write_to_screen on a fresh Screen; returns the recorded positions or an error token"""
     x, y, w, h = case["wp"]
@@ -375,11 +630,19 @@ def impl_lines(case):
         out = []
         ds = []
         with done_ctx(False):
-            for s in case["specs"]:
+            for idx, s in enumerate(case["specs"]):
+                ints = [v for v in s if v is not None]
+
+                def todims():
+                    for v in ints:
+                        for value in (v, lambda v=v: v):
+                            t = to_dimension(value)
+                            yield enc_dim(t) + (" zero" if t.is_zero() else " nonzero")
                 try:
                     d = mkD(s)
                 except ValueError:
-                    out += ["err:ValueError"] * 3
+                    out += ["err:ValueError"] * (3 + len(merge_variants(case, 0)) + 2)
+                    out += list(todims())
                     ds = None
                     continue
                 if ds is not None:
@@ -387,6 +650,18 @@ def impl_lines(case):
                 out.append(enc_dim(d))
                 out.append(enc_dim(Window(height=d).preferred_height(9, 9)))
                 out.append(enc_dim(Window(width=d).preferred_width(9)))
+                for c, de in merge_variants(case, idx):
+                    try:
+                        out.append(enc_dim(Window._merge_dimensions(d, lambda c=c: c, bool(de))))
+                    except ValueError:
+                        out.append("err:ValueError")
+                for value in (d, lambda d=d: (lambda: d)):
+                    t = to_dimension(value)
+                    out.append(enc_dim(t) + (" zero" if t.is_zero() else " nonzero"))
+                out += list(todims())
+            for value in (None, lambda: None):
+                t = to_dimension(value)
+                out.append(enc_dim(t) + (" zero" if t.is_zero() else " nonzero"))
             for f in (sum_layout_dimensions, max_layout_dimensions):
                 if ds is None:
                     out.append("err:ValueError")
@@ -400,6 +675,12 @@ def impl_lines(case):
         ws = case["weights"]
         r = guarded(lambda: list(itertools.islice(take_using_weights(list(range(len(ws))), ws), case["k"])))
         return [enc_res(r)]
+    if k == "slow":
+        with done_ctx(case["done"]):
+            split = build(case)
+            a = case["avail"]
+            dims = real_dims(split, case, a) if not (case["dir"] == "h" and not split.children) else []
+            return [f"bound={step_bound(dims, a)} fuel={step_bound(dims, a) + 3 * len(dims) + 3}"]
     if k == "reuse":
         outs = []
         with done_ctx(False):
@@ -427,13 +708,15 @@ def impl_lines(case):
     with done_ctx(case["done"]):
         split = build(case)
         hung = False
+        plain = []
         for a in case["avails"]:
             # after one hang in this case the remaining lines are not worth a time-out each
             r = ("hang", None) if hung else guarded(lambda: real_divide(split, case, a))
             hung = hung or r[0] == "hang"
-            out.append(enc_res(r))
+            out.append(enc_div(r, split, case, a))
+            plain.append(enc_res(r))
         if all_positive(case):
-            out += out[:len(case["avails"])]
+            out += plain
         if case.get("wp"):
             r, vis = (("hang", None), None) if hung else draw(split, case)
             if r[0] != "ok":
@@ -453,8 +736,9 @@ def impl_lines(case):
 
 
 # ------------------------------------------------------------------ oracle
-def check_divide(name, dims, avail, done, res):
-    """C12 restated over the dimensions the real split sees and the sizes it returned."""
+def check_divide(name, dims, avail, done, res, steps=None):
+    """C12 restated over the dimensions the real split sees and the sizes it returned
+    (`steps` = number of loop iterations the real call made, when it was counted)."""
     v = []
     mins = [d.min for d in dims]
     prefs = [d.preferred for d in dims]
@@ -492,10 +776,14 @@ def check_divide(name, dims, avail, done, res):
     goal = min(avail, sum(prefs) if done else sum(maxs))
     if sum(sizes) != goal:
         bad(f"space not used ({zero})", f"sum(sizes)={sum(sizes)} but children could take {goal}")
+    if steps is not None and steps > max(sum(sizes) - sum(mins), 0) * gap_bound(dims):
+        # termination WITH A BOUND: at most n * (maxW + 1) loop iterations per cell handed out
+        bad(f"more loop iterations than n*(maxW+1) per cell handed out ({zero})",
+            f"{steps} iterations for {sum(sizes) - sum(mins)} cells, n={len(dims)}, maxW={max([1] + ws)}")
     return v
 
 
-def check_structure(cls, split, horiz, avail, res):
+def check_structure(cls, split, horiz, avail, res, specs=None):
     """Independent of how _all_children was built: the children stand in their listed order with
     exactly one padding between two neighbours, fillers only at the two ends; and 'too small' is
     reported exactly when the children's minimums plus (n-1) paddings do not fit."""
@@ -524,8 +812,22 @@ def check_structure(cls, split, horiz, avail, res):
         v.append({"signature": f"{cls}._all_children | children not adjacent in order (stray padding or filler region)",
                   "msg": f"regions {tags} for {len(kids)} children (f=filler, p=padding), expected {expect} "
                          f"between optional fillers; align={split.align} padding={split.padding!r}"})
+    if res[0] == "ok" and res[1] is not None and len(res[1]) == len(tags):
+        # sizes against what the USER wrote (not against what preferred_* report): an int padding
+        # is exactly that many cells, a child stays within the explicit min..max of its Dimension
+        for tg, size in zip(tags, res[1]):
+            if tg == "p" and isinstance(split.padding, int) and not isinstance(split.padding, bool) \
+                    and size != split.padding:
+                v.append({"signature": f"{cls} | padding window size differs from the int padding",
+                          "msg": f"padding={split.padding} but a padding window got {size}: sizes {res[1]} regions {tags}"})
+                break
+            if isinstance(tg, int) and specs is not None and tg < len(specs):
+                mn, mx = specs[tg][0] or 0, specs[tg][1]
+                if size < mn or (mx is not None and size > mx):
+                    v.append({"signature": f"{cls} | child outside its explicit min..max",
+                              "msg": f"child {tg} with Dimension(min={specs[tg][0]}, max={mx}) got {size}: sizes {res[1]}"})
+                    break
     if res[0] == "ok":
-        from prompt_toolkit.layout.dimension import to_dimension
         if horiz:
             mins = [k.preferred_height(7, avail).min for k in kids]
         else:
@@ -559,13 +861,22 @@ def check_layout(name, split, case, vis):
         wp = vis.get(split.window_too_small)
         if w > 0 and h > 0 and (wp is None or (wp.xpos, wp.ypos, wp.width, wp.height) != (x, y, w, h)):
             bad("too-small window", "the too-small window must cover the whole region")
-        if any(c in vis for c in split._all_children):
+        if any(c in vis or getattr(c, "content", None) in vis for c in split._all_children):
             bad("children drawn when too small", "children drawn although the space is too small")
         return v
     pos = y if horiz else x
     regions = []
     for c, s in zip(split._all_children, sizes):
+        shown = True
+        while isinstance(c, ConditionalContainer):
+            shown = shown and bool(c.filter())
+            c = c.content
         wp = vis.get(c)
+        if not shown:
+            if wp is not None:
+                bad("hidden child drawn", "a ConditionalContainer child whose filter is off was drawn")
+            pos += s
+            continue
         cross = w if horiz else h
         if s > 0 and cross > 0:
             if wp is None:
@@ -597,6 +908,52 @@ def check_layout(name, split, case, vis):
     return v
 
 
+def check_specs(vis):
+    """C12 in terms of the USER's explicit dimensions: a window that is a direct child of a split
+    which was given a visible region and is not 'too small' gets, along the axis of that split, a
+    size within the min..max of its own explicit width=/height= (a hidden ConditionalContainer
+    child gets nothing).  Independent of what preferred_width/preferred_height report."""
+    v = []
+    for split, wp in list(SPLIT_REGIONS.items()):
+        if wp.width <= 0 or wp.height <= 0 or split.window_too_small in vis:
+            continue
+        horiz = isinstance(split, HSplit)
+        for child in split.children:
+            on = True
+            c = child
+            while isinstance(c, (ConditionalContainer, DynamicContainer)):
+                if isinstance(c, DynamicContainer):
+                    c = c.get_container()
+                    continue
+                on = on and bool(c.filter())
+                c = c.content
+            node = NODE_OF.get(c)
+            if node is None or node[0] not in "WXS":
+                continue
+            if node[0] == "S":
+                # a split constructed with an explicit height= / width=
+                spec = node[2] if horiz else node[1]
+                wpc = SPLIT_REGIONS.get(c)
+                if spec is None or wpc is None:
+                    continue
+            else:
+                spec = node[3] if horiz else node[2]
+                wpc = vis.get(c)
+            mn, mx = spec[0] or 0, spec[1]
+            size = 0 if wpc is None else (wpc.height if horiz else wpc.width)
+            if not on:
+                if wpc is not None:
+                    v.append({"signature": "ConditionalContainer | hidden child drawn", "msg": str(node)})
+                continue
+            if wpc is None and node[0] == "X" and (node[6] or node[7]):
+                continue    # dont_extend may have reduced the other axis to nothing: not drawn at all
+            if size < mn or (mx is not None and size > mx):
+                v.append({"signature": f"{type(split).__name__}.write_to_screen | child drawn outside its explicit min..max",
+                          "msg": f"window {node} got {size} along the axis of its {type(split).__name__} "
+                                 f"(region {wp.width}x{wp.height}), explicit min {mn} max {mx}"})
+    return v
+
+
 def oracle(case):
     k = case["kind"]
     v = []
@@ -604,6 +961,12 @@ def oracle(case):
         return v
     if k == "dim":
         for s in case["specs"]:
+            for val in [x for x in s if x is not None]:
+                for value in (val, lambda val=val: val, lambda val=val: (lambda: val)):
+                    t = to_dimension(value)
+                    if not (t.min == t.preferred == t.max == val):
+                        v.append({"signature": "to_dimension | an int is not an exact dimension",
+                                  "msg": f"to_dimension({val}) = {enc_dim(t)}"})
             try:
                 d = mkD(s)
             except ValueError:
@@ -612,6 +975,20 @@ def oracle(case):
                 continue
             if not (d.min <= d.preferred <= d.max):
                 v.append({"signature": "Dimension.__init__ | preferred outside min..max", "msg": str(s)})
+            if to_dimension(d) is not d or to_dimension(lambda d=d: d) is not d:
+                v.append({"signature": "to_dimension | a Dimension is not returned as it is", "msg": str(s)})
+            for c, de in merge_variants(case, 0):
+                try:
+                    m = Window._merge_dimensions(d, lambda c=c: c, bool(de))
+                except ValueError:
+                    v.append({"signature": "Window._merge_dimensions | raises ValueError", "msg": f"{s} {c} {de}"})
+                    continue
+                lo = s[0] or 0
+                hi = s[1]
+                if not (lo <= m.min <= m.preferred <= m.max) or (hi is not None and m.max > hi) or \
+                        (de and (c is not None or s[3] is not None) and m.max != m.preferred):
+                    v.append({"signature": "Window._merge_dimensions | reported dimension outside the explicit bounds",
+                              "msg": f"Dimension{tuple(s)} content={c} dont_extend={de} -> {enc_dim(m)}"})
         return v
     if k == "take":
         ws = case["weights"]
@@ -622,6 +999,26 @@ def oracle(case):
             elif any(ws[i] == 0 for i in r[1]):
                 v.append({"signature": "take_using_weights | zero-weight item yielded", "msg": f"{ws} -> {r}"})
         return v
+    if k == "slow":
+        horiz = case["dir"] == "h"
+        name = "HSplit._divide_heights" if horiz else "VSplit._divide_widths"
+        with done_ctx(case["done"]):
+            split = build(case)
+            a = case["avail"]
+            dims = real_dims(split, case, a)
+            STEP_BUDGET[0] = SLOW_BUDGET
+            try:
+                res = guarded(lambda: real_divide(split, case, a))
+            finally:
+                STEP_BUDGET[0] = None
+            if res == ("exc", "StepBudget"):
+                need = sum(d.min for d in dims)
+                return [{"signature": SLOW_SIGNATURE,
+                         "msg": f"{name}: more than {SLOW_BUDGET} loop iterations and still not finished: "
+                                f"dims={[enc_dim(d) for d in dims]} avail={a} (at most {max(a - need, 0)} cells to "
+                                f"hand out; proved bound {step_bound(dims, a)} iterations, and "
+                                f"Ptk.Props.C12Slow.slow_hangs: weights [1, M] need more than M)"}]
+            return check_divide(name, dims, a, bool(case["done"]) and horiz, res, STEPS[0])
     if k == "reuse":
         horiz = case["dir"] == "h"
         name = "HSplit._divide_heights" if horiz else "VSplit._divide_widths"
@@ -636,11 +1033,13 @@ def oracle(case):
                 if horiz and not ses.split.children:
                     dims = []
                 res = guarded(lambda: real_divide(ses.split, pc, a))
-                found = check_divide(name, dims, a, bool(c["done"]) and horiz, res)
+                found = check_divide(name, dims, a, bool(c["done"]) and horiz, res, STEPS[0])
                 if res[0] == "hang":
                     v += found
                     break
-                found += check_structure(name.split(".")[0], ses.split, horiz, a, res)
+                found += check_structure(name.split(".")[0], ses.split, horiz, a, res,
+                                         [ZERO_SPEC if wid in (c.get("hidden") or []) else sp
+                                          for wid, sp in c["children"]])
                 if c.get("wp"):
                     r, vis = draw(ses.split, pc)
                     if r[0] == "ok":
@@ -667,6 +1066,37 @@ def oracle(case):
         if r[0] == "exc":
             return [{"signature": f"nested write_to_screen | raises {r[1]}", "msg": str(case)}]
         x, y, w, h = case["wp"]
+        sv = check_specs(real_tree.screen.visible_windows_to_write_positions)
+        if sv:
+            sv[0]["msg"] += f": {case}"
+            return sv[:1]
+        # every cell that was written lies inside the root region, and the text of a window inside
+        # the write position recorded for that window (Window.write_to_screen never draws outside
+        # the position it was handed)
+        letters = {}
+        for (t, a, b, c, d) in items:
+            if t.startswith("u") and t[1:].isdigit():
+                letters.setdefault(win_letter(int(t[1:])), []).append((a, b, c, d))
+        for yy, row in real_tree.screen.data_buffer.items():
+            for xx, ch in row.items():
+                if not (x <= xx < x + w and y <= yy < y + h):
+                    return [{"signature": "nested write_to_screen | cell written outside the region",
+                             "msg": f"cell ({xx},{yy}) {ch.char!r} outside {case['wp']}: {case}"}]
+                if ch.char in letters and not any(a <= xx < a + c and b <= yy < b + d
+                                                  for a, b, c, d in letters[ch.char]):
+                    return [{"signature": "Window.write_to_screen | content drawn outside the window's write position",
+                             "msg": f"cell ({xx},{yy}) {ch.char!r}, window positions {letters[ch.char]}: {case}"}]
+        # mouse handlers: every drawn window registers ONE handler on exactly its write position;
+        # nothing is registered outside the root region
+        groups = {}
+        for yy, row in real_tree.mouse.mouse_handlers.items():
+            for xx, hnd in row.items():
+                groups.setdefault(id(hnd), set()).add((xx, yy))
+        rects = [frozenset((xx, yy) for xx in range(a, a + c) for yy in range(b, b + d))
+                 for (_t, a, b, c, d) in items]
+        if len(groups) != len(rects) or {frozenset(g) for g in groups.values()} != set(rects):
+            return [{"signature": "nested write_to_screen | mouse handler regions differ from the windows' write positions",
+                     "msg": f"handler regions {sorted(sorted(g)[:1] + sorted(g)[-1:] for g in groups.values())} vs windows {items}: {case}"}]
         for (t, a, b, c, d) in items:
             if not (x <= a and a + c <= x + w and y <= b and b + d <= y + h):
                 v.append({"signature": "nested write_to_screen | window outside the region",
@@ -690,10 +1120,10 @@ def oracle(case):
             if case["dir"] == "h" and not split.children:
                 dims = []
             res = guarded(lambda: real_divide(split, case, a))
-            v += check_divide(name, dims, a, bool(case["done"]) and case["dir"] == "h", res)
+            v += check_divide(name, dims, a, bool(case["done"]) and case["dir"] == "h", res, STEPS[0])
             if res[0] == "hang":
                 return v
-            v += check_structure(name.split(".")[0], split, case["dir"] == "h", a, res)
+            v += check_structure(name.split(".")[0], split, case["dir"] == "h", a, res, case["children"])
         if case.get("wp"):
             r, vis = draw(split, case)
             if r[0] == "hang":
@@ -801,6 +1231,14 @@ def cases(tier, rng):
                "avails": [a, rng.choice(avails)], "done": rng.randrange(2) if d == "h" else 0,
                "wp": [rng.randrange(3), rng.randrange(3), a if d == "v" else rng.randrange(0, 4),
                       a if d == "h" else rng.randrange(0, 4)]}
+    # --- huge weights: the bound n*(maxW+1) per cell is attained up to the factor n (known finding);
+    #     the real loops run under an iteration budget, the model only prints the proved bound
+    for M in (10 ** 6, 10 ** 9, 10 ** 12):
+        for d in "hv":
+            yield {"kind": "slow", "dir": d, "align": 3, "pad": 0, "done": 0, "avail": 2,
+                   "children": [[None, 2, 1, None], [None, 0, M, None]]}
+        yield {"kind": "slow", "dir": "hv"[M % 7 % 2], "align": 0, "pad": 1, "done": 0, "avail": 12,
+               "children": [[None, None, 1, None], [1, 3, M, 2], [None, None, 2, None]]}
     # --- ONE split object reused: the requirements of its children change between the calls
     #     exhaustive: every pair of single-child requirements, same object, same available size
     for a in mid:
@@ -816,6 +1254,7 @@ def cases(tier, rng):
         chosen = ids[:rng.choice([1, 2, 2, 3])]
         avail = rng.choice([0, 3, 6, 10, 20, rng.randrange(0, 40)])
         calls = []
+        cond = rng.randrange(3) == 0   # children are ConditionalContainers that come and go
         for _c in range(rng.choice([2, 3, 4])):
             r = rng.randrange(10)
             if r == 0:      # edit the children list (object identities change -> _children_cache miss)
@@ -827,13 +1266,14 @@ def cases(tier, rng):
             big = rng.randrange(3) == 0
             a = avail
             calls.append({"align": al, "pad": pad, "children": [[i, rand_spec(rng, big)] for i in chosen],
+                          "hidden": [i for i in chosen if cond and rng.randrange(3) == 0],
                           "avail": a, "done": 1 if (d == "h" and rng.randrange(6) == 0) else 0,
                           "wp": [rng.randrange(3), rng.randrange(3), a if d == "v" else rng.randrange(0, 5),
                                  a if d == "h" else rng.randrange(0, 5)] if rng.randrange(3) == 0 else None})
-        yield {"kind": "reuse", "dir": d, "calls": calls}
+        yield {"kind": "reuse", "dir": d, "cond": int(cond), "calls": calls}
     # --- nested containers (random trees of depth <= 3, <= 3 children per split)
     for _ in range(1500 if quick else 20000):
-        t = rand_tree(rng, rng.choice([1, 2, 3]), [0])
+        t = rand_tree(rng, rng.choice([1, 2, 3]), [0], True, rng.randrange(2) == 1)
         yield {"kind": "tree", "tree": t,
                "wp": [rng.randrange(3), rng.randrange(3), rng.choice([0, 1, 5, rng.randrange(0, 40)]),
                       rng.choice([0, 1, 4, rng.randrange(0, 25)])]}
@@ -861,6 +1301,8 @@ def nontrivial(case):
         return len(case["calls"]) > 1 and any(c["children"] for c in case["calls"])
     if case["kind"] == "tree":
         return tree_size(case["tree"]) > 1 and case["wp"][2] > 0 and case["wp"][3] > 0
+    if case["kind"] == "slow":
+        return True
     if case["kind"] != "split":
         return case["kind"] == "take" and any(case["weights"])
     return len(case["children"]) > 0 and max(case["avails"]) > 0
